@@ -8,7 +8,7 @@ use crate::common::*;
 use core::future::Future;
 use core::task::{Context, Poll};
 use ntp_proto::{NtpLeapIndicator, TimeSnapshot};
-use statime_csptp::verif::{manager as mh, platform as ph, server as vh};
+use statime_csptp::verif::{manager as mh, messages as gh, platform as ph, server as vh};
 use statime_csptp::{CsptpConfig, CsptpManager, CsptpState, InternalState, ServerRecvResult, ServerSocket};
 use statime_wire::{ClockAccuracy, ClockIdentity, ClockQuality, Timestamp};
 use std::cell::RefCell;
@@ -176,12 +176,9 @@ fn check_answer(env: &Env, req: &[u8], rec: &Rec, status_requested: bool) {
     }
 }
 
-/// Template: Sync + CSPTP request TLV (4 value bytes), 52 bytes; type/length fields concrete, rest symbolic.
-#[kani::proof]
-#[kani::unwind(5)]
-fn c45_handle() {
+/// Template request as in `c45_handle`.
+fn any_request() -> ([u8; 52], bool) {
     let mut req: [u8; 52] = kani::any();
-    let env = any_env();
     req[0] = 0x30; // sdoId high nibble 3 (CSPTP), messageType Sync
     put16(&mut req, 2, 52);
     put16(&mut req, 44, 0xff00);
@@ -189,6 +186,71 @@ fn c45_handle() {
     // the parser and Timestamp::new disagree at nanoseconds == 10^9 exactly; excluded (see report)
     kani::assume(be32(&req, 40) != 1_000_000_000);
     let well_formed = req[5] == 0 && req[1] & 0x0f == 2 && be32(&req, 40) < 1_000_000_000;
+    (req, well_formed)
+}
+
+/// The synchronous steps of `handle_packet`, called one by one through thin hook wrappers in the
+/// order `handle_packet` calls them (parse, is_request, new_response, serialize, new_follow_up,
+/// serialize), with the same echo checks on the produced bytes. What this does not cover is the
+/// glue inside `handle_packet` (which values it passes on); that is `c45_handle`.
+#[kani::proof]
+#[kani::unwind(5)]
+fn c45_messages() {
+    let (req, well_formed) = any_request();
+    let env = any_env();
+    let snapshot = TimeSnapshot { leap_indicator: env.leap, ..TimeSnapshot::default() };
+    let mut rec = Rec {
+        ev_calls: 0,
+        ev: [0; CAP],
+        ev_len: 0,
+        ev_from: env.local,
+        ev_to: env.remote,
+        gen_calls: 0,
+        gn: [0; CAP],
+        gen_len: 0,
+        gen_from: env.local,
+        gen_to: env.remote,
+        ev_result: env.ev_result,
+        gen_result: env.gen_result,
+    };
+    let parsed = gh::msg_deserialize(&req);
+    assert!(parsed.is_some() == well_formed, "template parses as a CSPTP message iff sdoId 0x300, PTP version 2, valid timestamp");
+    let Some(request) = parsed else { return };
+    assert!(gh::msg_is_request(&request) && !gh::msg_is_response(&request), "a Sync with a request TLV is a request");
+    let mut tlvbuf = [0u8; 128];
+    let Some(response) = gh::msg_new_response(&mut tlvbuf, &request, env.rx, None, &snapshot, &env.state) else {
+        assert!(false, "a response can be built for every request");
+        return;
+    };
+    let Some(n) = gh::msg_serialize(&response, &mut rec.ev) else {
+        assert!(false, "the response fits 128 bytes");
+        return;
+    };
+    rec.ev_calls = 1;
+    rec.ev_len = n;
+    if let Ok(tx) = env.ev_result {
+        let Some(fu) = gh::msg_new_follow_up(&response, tx) else {
+            assert!(false, "a follow-up can be built for every two-step response");
+            return;
+        };
+        let Some(n) = gh::msg_serialize(&fu, &mut rec.gn) else {
+            assert!(false, "the follow-up fits 128 bytes");
+            return;
+        };
+        rec.gen_calls = 1;
+        rec.gen_len = n;
+    }
+    check_answer(&env, &req, &rec, req[48] & 1 != 0);
+    kani::cover!(req[48] & 1 != 0 && env.ev_result.is_ok(), "response with status TLV and follow-up");
+    kani::cover!(req[48] & 1 == 0 && be64(&req, 8) != 0 && env.leap == NtpLeapIndicator::Leap59, "response without status TLV, non-zero correction echoed, leap59");
+}
+
+/// Template: Sync + CSPTP request TLV (4 value bytes), 52 bytes; type/length fields concrete, rest symbolic.
+#[kani::proof]
+#[kani::unwind(5)]
+fn c45_handle() {
+    let (req, well_formed) = any_request();
+    let env = any_env();
 
     let rec = run(&env, &req);
     if !well_formed {
@@ -239,7 +301,7 @@ fn handle_other<const N: usize>(byte0: u8) {
     kani::assume(n <= N);
     let env = any_env();
     let rec = run(&env, &pkt[..n]);
-    assert!(rec.ev_calls == 0 && rec.gn_calls == 0, "nothing is sent for a datagram that is not a CSPTP Sync");
+    assert!(rec.ev_calls == 0 && rec.gen_calls == 0, "nothing is sent for a datagram that is not a CSPTP Sync");
 }
 
 fn handle_any<const N: usize>(byte0: u8) {
@@ -250,7 +312,7 @@ fn handle_any<const N: usize>(byte0: u8) {
     let env = any_env();
     let rec = run(&env, &pkt[..n]);
     if rec.ev_calls == 0 {
-        assert!(rec.gn_calls == 0, "no follow-up without a response");
+        assert!(rec.gen_calls == 0, "no follow-up without a response");
         kani::cover!(n >= 52 && be16(&pkt, 44) == 0xff00, "Sync with a request TLV type but not answered (malformed)");
         return;
     }
